@@ -218,7 +218,7 @@ structure TreeSt where
 * `tree.info t=<tree>` → `wf=… leaves=a,b struct=<tree> paths=p;q mapwp=<tree of paths> unflat=<tree|none> at=1|0`
 * `tree.pair s=<tree> o=<tree> strict=0|1` → `prefix=0|1 flat=<none | t;t;…>`   (`s`, `o` arbitrary trees; their structures are compared)
 * `tree.unflatten s=<tree> l=a,b,…` → `<tree>` | `none`
-* `args.run params=<name~default~node~product;…> kwargs=<name~tree;…> ret=<tree|-> produces=<tree|->`
+* `args.run params=<name~default~node~product;…> kwargs=<name~tree;…> ret=<tree|-> produces=<tree|-> [gen=1]`  (`gen=1`: task generator)
      → `collect-error` | `type-error deps=… prods=…` | `ok recv=<name~tree;…> deps=<name~nodetree;…> prods=<…>`
 * `args.return ret=<tree of node tokens> out=<tree of value tokens>` → `ok|fail saved=<node~tree;…>`
      (a node token starting with `D` is provisional; one starting with `P` is a `PathNode`: saves only `s…`/`b…` leaves)
@@ -257,7 +257,7 @@ def treeHandle (st : TreeSt) (cmd : String) (a : Args) : TreeSt × String :=
       | .ok t =>
         let deps := ArgsCodec.showDict (TreeShow.tree ArgsCodec.showNode) t.dependsOn
         let prods := ArgsCodec.showDict (TreeShow.tree ArgsCodec.showNode) t.produces
-        match received f t with
+        match (if a.get "gen" == "1" then receivedGen f t else received f t) with
         | .error _ => (st, s!"type-error deps={deps} prods={prods}")
         | .ok r => (st, s!"ok recv={ArgsCodec.showDict (TreeShow.tree ArgsCodec.showObj) r} deps={deps} prods={prods}")
     | none => (st, "bad-op")
